@@ -719,6 +719,17 @@ func (c *SpecCtx) evalCall(x *ECall) *V {
 			v.F[k] = c.coerceTo(c.eval(x.Args[k+1]), st.Field(k).Type())
 		}
 		return v
+	case "athead":
+		// athead(v): the value the loop-carried variable v had at the head of the innermost enclosing loop
+		// (i.e. before the current iteration changed it)
+		id, isId := x.Args[0].(*EIdent)
+		if !isId || c.fr == nil || c.blk == nil {
+			c.fail("athead expects a local variable inside a loop")
+		}
+		if v, ok := c.fr.loopHeadValue(id.Name, c.blk, c.st); ok {
+			return v
+		}
+		c.fail("athead(%s): no enclosing loop carries that variable", id.Name)
 	case "zerotime":
 		// the zero value of time.Time
 		tt := c.u.eng.resolveType("time.Time", c.pkg)
